@@ -3,11 +3,45 @@ PID = 'C09'
 SPEC = dict(
     driver='c09_tlv',
     extra=['ref/ref.c', 'simnet.c', 'ref/ref_tlvtree.c'],
-    rule='placeholder',
-    bounds=dict(quick='placeholder', thorough='placeholder'),
-    technique='bounded-exhaustive enumeration on the compiled code, compared with an independent reference TLV tree codec',
-    level_text='placeholder',
-    level_note='placeholder',
-    require_outcomes=[],
-    assumptions=[],
+    rule='Bounded-exhaustive enumeration, nothing sampled. A case is a named block of the finite space: (a) one first header byte x all 256 '
+         'second bytes x the declared lengths x {0,1,2,3,declared-1,declared,declared+1} following bytes; (b) one block of reference trees '
+         '(root label / number of children / first child label, or a sum target, or a tree shape) in which every tree is built through the '
+         'tree codec and the element codec, serialized by every serializer with every option set into every buffer size of the bound, cloned, '
+         'converted nested->raw, and its reference encoding parsed back through tree codec, element codec and header reader; (c) one base tree: '
+         'its encoding, every truncation, one trailing byte, two copies, every length field x 7 perturbations, each through all parsers with '
+         'expansion to depth 3 and re-serialization; (d) one stream element x every chunking x trailing bytes x reader. Distinct = distinct '
+         'case name (the enumeration indices); non-trivial = at least one libksi call was compared with the reference tree model '
+         '(harness/ref/ref_tlvtree.c). Within a case each disagreement signature is reported once; all instances are counted (dev:<sig>).',
+    bounds=dict(
+        quick='(a) all 2^16 two-byte prefixes; TLV16 prefixes with declared lengths {0,1,3,255,256,257}; plus all 1-byte inputs and the empty input; '
+              'each input in an exactly sized heap block through KSI_FTLV_memRead, KSI_FTLV_memReadN (count and array), KSI_TLV_parseBlob + getNestedList, '
+              'KSI_TlvElement_parse + expansion. (b1) tags {0,1,1f,20,ff,100,1fff} x 4 flag sets x raw length {0,1,254,255,256,257,65534,65535,65536,65537,70000}; '
+              '(b2a) parent 7 tags x 4 flags with 0..2 children, each child from 7 tags x 4 flags x length {0,1}; (b2b) parent {1f,20} with 1..3 children, each from '
+              '{1f,20} x 8 lengths (all 4368 x 2 combinations); (b3) 1..3 children whose encodings sum to {65527,65528,65531,65532,65534..65537,65539..65541,131071..131073} '
+              'under 8/5 split patterns, both orders, bare / wrapped once / wrapped with a sibling; (b4) root {1f,20} -> 1..2 mids {1f,20} -> 0..2 leaves from {1f,20} x '
+              '{0,1,254,255,256}; (b5) all 85 ordered shapes of depth<=3 with 1..3 children x 28 label rotations x 3 length schemes; (b6) depth-3 chains with leaf '
+              'length 246..256 and 65526..65535. Output buffers: every size 0..need+2 when need<=40, else {0,need-1,need,need+1,65540}; 4 option sets '
+              '(NO_HEADER x NO_MOVE); each size once between canary areas and once as an exactly sized heap block (ASan). (c) all 13 shapes of depth<=3 with 1..2 children '
+              'x 3 length schemes x 4 label rotations. (d) TLV8 payload 0..10 and TLV16 payload 0..8 (encodings <= 12 bytes) x 3 header variants x trailing {0,1,3} bytes x all '
+              '2^(n-1) chunkings x 2 tail modes through socketRead (simnet) and fileRead (chunked unbuffered stream), fmemopen, every smaller buffer, every cut stream; '
+              'elements of 255/256/65534/65535 bytes.',
+        thorough='as quick with: (a) TLV16 declared lengths {0,1,2,3,4,255,256,257,1000} for every prefix and {65534,65535} for second byte 00/80/ff; (b2a) 0..3 children '
+                 '(4.9 M trees); (b4) leaf lengths {0,1,254,255,256,257}; buffer sizes additionally {1,need-2,need+2}; (c) all 85 shapes with 1..3 children.'),
+    technique='bounded-exhaustive input enumeration on the compiled code (ASan/UBSan, exactly sized heap buffers, canary areas), compared with an independent reference TLV tree encoder/decoder',
+    level_text='Every element of the stated finite spaces is executed on the real libksi object code and compared with an independent ~250 line reference model of the TLV '
+               'tree encoding (sizes computed without truncation, canonical header choice, exact-tiling decoder). The property is a universally quantified input/output relation of '
+               'pure codec functions whose interesting behaviour is concentrated at a few arithmetic boundaries (tag 0x1f/0x20, length 255/256, content 65535/65536, buffer need-1/need); '
+               'a complete enumeration around all of them, of all 2^16 header prefixes and of every chunking of short streams decides it within the bound.',
+    level_note='Trusted: the reference model in harness/ref/ref_tlvtree.c, gcc sanitizers, the simulated socket layer. Trees beyond depth 3 / 3 children, payload lengths other than the '
+               'listed boundary values, and tags outside 0..0x1fff are not covered.',
+    require_outcomes=['a:memRead:ok', 'a:memRead:reject-short-payload', 'a:memRead:reject-incomplete-header', 'a:parseBlob:ok', 'a:parseBlob:reject-trailing',
+                      'a:expand:ok', 'a:expand:reject-untiled', 'a:elemParse:ok', 'a:elemParse:reject',
+                      'b1:hdr:two-byte', 'b1:hdr:four-byte', 'b1:tree:oversize-root', 'b2a:ser:refused-short-buffer', 'b2b:tree:oversize-root', 'b2b:tree:fits',
+                      'b3:tree:oversize-inner', 'b3:tree:oversize-root', 'b3:tree:fits', 'b4:parseback:elem', 'b5:parseback:ftlv', 'b5:clone:ok', 'b6:tree:oversize-inner',
+                      'c:parseBlob:reject-short-payload', 'c:parseBlob:reject-incomplete-header', 'c:parseBlob:reject-trailing', 'c:expand:reject-untiled', 'c:memReadN:ok',
+                      'd:stream:socket:ok', 'd:stream:socket:reject', 'd:stream:file:ok', 'd:stream:file:reject', 'd:stream:cookie:ok'],
+    assumptions=['the reference TLV tree model (harness/ref/ref_tlvtree.c) is a faithful transcription of the KSI TLV encoding rules',
+                 'an output buffer of exactly the needed size is adequate (a serializer may refuse only smaller buffers or trees that do not fit)',
+                 'KSI_FTLV_memRead / memReadN are prefix readers (one element from a possibly longer buffer); KSI_TLV_parseBlob and KSI_TlvElement_parse take the whole input as one element'],
+    deadline=dict(quick=600, thorough=2400),
 )
